@@ -192,6 +192,14 @@ func main() {
 		}
 		idx++
 		r := decodeGuarded(b, transferOf(id))
+		// wall time is measured on a machine that may be busy: a slow call is measured again (up to three times, the fastest counts);
+		// allocation does not depend on the load
+		for again := 0; again < 3 && r.outcome != "hang" && r.outcome != "panic" && r.ms > 50; again++ {
+			if r2 := decodeGuarded(b, transferOf(id)); r2.outcome == "hang" || r2.ms < r.ms {
+				r2.alloc = r.alloc
+				r = r2
+			}
+		}
 		e := ev.M{"ev": "Decode", "id": id, "kind": kind, "len": len(b), "outcome": r.outcome, "ms": int(r.ms), "allocKiB": int(r.alloc / 1024)}
 		if keepInput || r.outcome == "panic" || r.outcome == "hang" || r.ms > 200 || r.alloc > 64<<20 {
 			e["input"] = ev.Ints(b)
